@@ -21,9 +21,18 @@ def main(argv=None):
     ck = report.Check(pid, a.tier)
     try:
         mod = importlib.import_module('ufwsa.rules.' + pid.lower())
-        mod.run(ck)
-        from .rules import hidden
-        hidden.run(ck, pid)
+        try:
+            mod.run(ck)
+        finally:
+            # decided on the declarations and uses of static objects alone: also when a rule above met a form it cannot read
+            try:
+                from .rules import hidden
+                hidden.run(ck, pid)
+            except front.FrontError:
+                raise
+            except Exception as e:      # noqa: BLE001
+                traceback.print_exc()
+                ck.broken(pid + '.s', 'hidden-state', '', '%s: %s' % (type(e).__name__, e))
     except front.FrontError as e:
         ck.broken(pid + '.front', 'front-end', '', str(e))
     except Exception as e:
